@@ -62,6 +62,24 @@ theorem can_implies_builds {o : Order} (h : Reachable o) :
   · obtain ⟨h2, h1⟩ := replaceReq_builds o p q hi hc hch
     exact ⟨_, Prod.ext h1 h2, rfl, rfl, rfl⟩
 
+/-- a finished order stays finished whatever report arrives – late, duplicated, an OrderCancelReject
+or an execution report with any OrdStatus / ExecType, well-formed or not: the status does not change
+(so `is_finished()` stays true and both gates stay false, `gates_total`) -/
+theorem finished_stays_finished (o : Order) (r : Report) (hf : o.status ∈ finished) :
+    (feed o r).1.status = o.status ∧ isFinished (feed o r).1 = true := by
+  have hst : (feed o r).1.status = o.status := by
+    unfold feed; split
+    · rcases processCancelRej_status o r with hs | ⟨st, hs⟩
+      · exact hs
+      · exact absurd hs (AsyncFix.Props.C16.finished_absorbing _ _ _ _ _ _ hf)
+    · have sh := processExecReport_shape o r
+      rcases sh.status with hs | ⟨hs, _⟩
+      · exact hs
+      · exact absurd hs (AsyncFix.Props.C16.finished_absorbing _ _ _ _ _ _ hf)
+  refine ⟨hst, ?_⟩
+  simp only [finished, List.mem_cons, List.not_mem_nil, or_false] at hf
+  rcases hf with h' | h' | h' | h' <;> simp [isFinished, hst, h']
+
 /-- the gates never raise and are decided by the status alone -/
 theorem gates_total (o : Order) :
     canCancel o = .ok (decide (o.status ∈ AsyncFix.Props.C16.live)) ∧
